@@ -644,6 +644,8 @@ class Ev:
                 return self.eval(r["body"], {}, depth + 1)
             return Sym("const", d)
         if dk in ("Fn", "AssocFn"):
+            if not e.get("resolved") and e.get("gargs") and self.facts.fn(d) is None:
+                return Sym("fn", self.resolve_generic(d, e["gargs"]) or d)          # `T::from` inside a generic helper inlined with T := Dual
             return Sym("fn", e.get("resolved") or d)
         return Sym("def", d)
 
@@ -688,6 +690,8 @@ class Ev:
 
     def ev_bin(self, e, env, depth):
         op = e["op"]
+        if op == "Add" and (e.get("ty") or "") == "std::string::String":
+            return concat_sym([vkey(self.eval(e["l"], env, depth)), vkey(self.eval(e["r"], env, depth))])       # String + &str
         if op in ("And", "Or"):
             l, r = self.eval(e["l"], env, depth), self.eval(e["r"], env, depth)
             a, b = sorted([vkey(l), vkey(r)], key=repr)      # commutative: conditions are side-effect free
@@ -841,6 +845,23 @@ class Ev:
             # type-parameter substitution it was created under
             return Clo(e["params"], {"k": "tyscope", "tymap": dict(self.tymaps[-1]), "e": e["body"], "ty": e["body"].get("ty"), "ln": e["body"].get("ln")}, env)
         return Clo(e["params"], e["body"], env)
+
+    def ev_format(self, e, env, depth):
+        """`format!` with default formatting only: the concatenation of its literal pieces and the text of its arguments."""
+        ks = []
+        for p_ in e["parts"]:
+            if p_[0] == "lit":
+                ks.append(vkey(Sym("lit", p_[1])))
+            else:
+                ks.append(vkey(self.text_of(self.eval(p_[1], env, depth), p_[1].get("ty"), p_[2])))
+        return concat_sym(ks)
+
+    def text_of(self, v, ty, how="display"):
+        """The text `{}` / to_string() gives: a string is its own text; anything else is an opaque display(value)."""
+        t = (ty or "").replace("&", "").replace("mut ", "").strip()
+        if how == "display" and t in ("str", "std::string::String"):
+            return v
+        return Sym(how, vkey(v))
 
     def ev_tyscope(self, e, env, depth):
         self.tymaps.append(e["tymap"])
@@ -1771,6 +1792,10 @@ class Ev:
             # `Ok(if c { a } else { b })` (the alternatives may come from an inlined helper) is `if c { Ok(a) } else { Ok(b) }`
             nm = d.rsplit("::", 1)[-1]
             return Alt([(gs[0] if len(gs) == 1 else ("all", gs), xv if isinstance(xv, EarlyRet) else Sym("ctor", nm, xv)) for gs, xv in flat_alts(args[0])])
+        if dk.startswith("Ctor") and len(args) == 1 and split_early(args[0]) is not None:
+            # `Variant(helper(..)?)`: on the alternatives where `?` returns, the function is left; the constructor wraps the others
+            nm = d.rsplit("::", 1)[-1]
+            return Alt([(gs[0] if len(gs) == 1 else ("all", gs), xv if isinstance(xv, EarlyRet) else Sym("ctor", nm, xv)) for gs, xv in split_early(args[0])])
         if dk.startswith("Ctor"):
             return Sym("ctor", d.rsplit("::", 1)[-1], *args)
         if d.startswith("core::panicking::") or d.startswith("std::rt::begin_panic"):
@@ -2041,8 +2066,14 @@ class Ev:
                 o = args[0]
                 if isinstance(o, Coll):
                     o = o.seq
+                if isinstance(o, Sym) and o.tag[:1] != ("ctor",):
+                    el = self.elem_of(o)          # zipping with a container itself (`a.iter().zip(b)`) walks it
+                    if el is not None:
+                        o = Seq(o, el if callable(el) else (lambda idx, el=el: el))
                 if isinstance(o, Seq):
                     return Seq(Sym("zip", vkey(recv.src), vkey(o.src)), lambda idx, a=recv.fn, b=o.fn: Tup([a(idx), b(idx)]))
+        if m == "to_string" and not args and (e.get("ty") or "") == "std::string::String" and not isinstance(recv, (Rec, Arr, Coll, Seq, Tup)) and self.facts.fn(d) is None:
+            return self.text_of(recv, e["recv"].get("ty"))         # the Display text: a str is its own text
         if m in ERASE_METHODS and not args:
             return recv
         if m == "into" and not args:
@@ -2278,6 +2309,28 @@ def canon_seq(seq):
         a, b = poly_from_key(src[2]), poly_from_key(src[3])
         return Seq(Sym("range", Poly.const(0).key(), (b - a).key()), lambda idx, f0=seq.fn, a=a: f0(idx + a), seq.enumerated)
     return seq
+
+
+def concat_sym(keys):
+    """Canonical string concatenation: nested concatenations are flattened, empty literals dropped, adjacent literals merged; a single piece is itself."""
+    flat = []
+    for k in keys:
+        if isinstance(k, tuple) and k[:2] == ("sym", "concat"):
+            flat.extend(k[2:])
+        else:
+            flat.append(k)
+    out = []
+    for k in flat:
+        if isinstance(k, tuple) and k[:2] == ("sym", "lit") and k[2] == "":
+            continue
+        if out and isinstance(k, tuple) and k[:2] == ("sym", "lit") and isinstance(out[-1], tuple) and out[-1][:2] == ("sym", "lit") and \
+                isinstance(k[2], str) and isinstance(out[-1][2], str):
+            out[-1] = ("sym", "lit", out[-1][2] + k[2])
+            continue
+        out.append(k)
+    if len(out) == 1 and isinstance(out[0], tuple) and out[0][:1] == ("sym",):
+        return Sym(*out[0][1:])
+    return Sym("concat", *out)
 
 
 def len_base(k):
